@@ -26,7 +26,13 @@ itself and behind wrapper steps.  `couplevec` hands `coupling_correction_2d` ARR
 "array_like or float": the same geometry in every frame, sweeps of separations, mixed directions; numpy arrays, lists,
 floats) and compares every entry with the pair evaluated on its own and with the decomposition into the two
 one-dimensional factors at that pair's own distance (the model computes the decomposition, the Stimson-Jeffery factor
-is handed to it).
+is handed to it).  `axis` hands the spectral functions (Lorentzian, diode filter, complex drag, hydrodynamic spectrum, the
+model object bare and behind wrapper steps) a whole frequency AXIS in one call - 1-12 frequencies in a numpy array of a
+stated dtype (float64, and the integer dtypes an integer-valued axis comes in: int64, int32 - numpy's default integer on
+Windows before numpy 2 -, uint32, int16, uint16), arange-like / log-spaced / unsorted, biased towards the top of the range
+(100 kHz) and towards the frequencies whose SQUARE leaves the axis' own dtype - and compares every entry with the published
+equation at that frequency and with the model asked at that frequency: the value at 50 kHz does not depend on how the
+number 50000 is stored.
 
 Private names of the library (robustness against behaviour-preserving refactorings):
   * the anchored functions are looked up by NAME (`_Anchored`): in the `detail` module the anchor names while it exists,
@@ -129,7 +135,11 @@ RULE = (
     "object called 1-4 times with different free parameters (the first call repeated at the end), bare and behind 0-2 wrapper steps, "
     "Lorentzian / hydrodynamic / axial models; coupling_correction_2d for 1-8 bead pairs in one call (same geometry repeated, sorted "
     "sweep of separations, mixed directions and separations 2.005-1e4 radii, axis-aligned directions) as numpy arrays, lists or floats, "
-    "every option combination; bispherical coordinates (to_curvilinear_coordinates) for every ordered pair of sizes x separations from a relative gap of 1e-6 to 1e4 summed radii; the Stimson-Jeffery factors of every `couple` / `stimson2` case with a gap >= 1e-6 also from the model + a "
+    "every option combination; frequency AXES handed over in one call (Lorentzian, diode filter, complex drag, hydrodynamic spectrum bulk / near a surface, "
+    "the model object of every kind bare and behind 0-2 wrapper steps): 1-12 frequencies in a numpy array of dtype float64 / int64 / int32 / uint32 / int16 / "
+    "uint16 (integers 1 Hz .. min(100 kHz, the dtype's maximum)), evenly spaced (k df, often ending at the top of the range), log-spaced, unsorted, "
+    "and around the frequency whose square leaves the axis' own dtype (181/182, 255/256, 46340/46341, 65535/65536 Hz) - its own random stream; "
+    "bispherical coordinates (to_curvilinear_coordinates) for every ordered pair of sizes x separations from a relative gap of 1e-6 to 1e4 summed radii; the Stimson-Jeffery factors of every `couple` / `stimson2` case with a gap >= 1e-6 also from the model + a "
     "malformed stream (PassiveCalibrationModel arguments, temperatures/pressures/molalities outside the validity ranges, "
     "overlapping beads (alone and as one pair of an array), fixed relaxation factors outside [0, 1], fixed diode frequencies <= 0) whose only oracle is 'the documented error, never data'. Non-trivial: the case evaluates a formula "
     "inside its validity domain (not an error case) and, for wall/coupling corrections, at R/h or R/d >= 1e-3 (where the "
@@ -155,6 +165,7 @@ ASSUMPTIONS = [
     "explored by the oracle only (no theorem): bounds (0,1) and far-field limit of the Stimson-Jeffery factors, equipartition of the hydrodynamic spectrum, temperature dependence of the salt viscosity at non-zero pressure (the zero-pressure part is a theorem)",
     "2-D coupling: the theorems are about the decomposition GIVEN the two one-dimensional factors (bounds and limit of the 2-D factor follow from those of the Goldman factor, a theorem, and of the Stimson-Jeffery factor, explored); the model is handed the implementation's own Stimson-Jeffery factor at each pair's distance; arrays of bead pairs keep separations >= 2.0045 radii (closer: the scalar `couple` cases; the series needs ~1/sqrt(gap) summands per pair and call), dx and dy have the same length (a float against an array is not documented to broadcast)",
     "fixed diode filter: installed the way calibrate_force does (model._filter = FixedDiodeModel(fixed_diode, fixed_alpha)) on models built with fast_sensor=False, BEFORE wrappers are derived; every call passes exactly the free parameters (f_diode first)",
+    "frequency axes: numpy arrays (what the docstrings name) of float64 and of integer dtypes; float32 / float16 axes are not generated (the spectrum is then computed in that precision: the property does not state one), nor lists (`f**2` is not defined for them), nor integer sample rates / exposure times; motion-blur exposure times on an axis stay below 0.9 / (its highest frequency) (no entry on a zero of the sinc factor); the Lorentzian on an integer axis holding a frequency whose square leaves the axis' dtype is the open finding F-C20-1",
     "private members of the library are used while they are reachable under the names of the pinned tree; when one is not (renamed by a refactoring) the same observation is made through a public route (calibrate_force(...).model for the drag transfer and the fixed filter, on one fixed synthetic trace, a fit that fails or takes more than a second skips the case; kappa of calibration_results for the corrected drag; the wrapper functions around __call__ for the wrapper methods; density_of_water for the salt-solution density) or, for the local drag factor of the hydrodynamic model, not at all ('?': ignored by the comparison and the oracle)",
 ]
 
@@ -455,7 +466,35 @@ def impl(case):
         # one process per sequence: the sequence is all the library has ever been asked, so a failure replays
         return fresh_process_answers(c["queries"])
     pm, hy, dm, sw, cm, lk = _mods()
+    if k == "axis":
+        axis = axis_array(c)
     try:
+        if k == "axis":
+            # ONE call with the whole frequency axis (an array of the stated dtype); one answer per entry
+            n, fn = len(c["axis"]), c["fn"]
+            if fn == "lor":
+                cols = [pm.passive_power_spectrum_model(axis, c["fc"], c["D"])]
+            elif fn == "diode":
+                cols = [pm.g_diode(axis, c["fd"], c["alpha"])]
+            elif fn == "drag":
+                cols = list(hy.calculate_complex_drag(axis, c["gamma0"], c["rho"], c["R"], c["l"]))
+            elif fn == "hydro":
+                cols = [hy.passive_power_spectrum_model_hydro(axis, c["fc"], c["D"], c["gamma0"], c["R"], c["rho_s"], c["rho_b"], c["l"])]
+            elif fn == "model":
+                model = lk.PassiveCalibrationModel(**c["cfg"])
+                args = [c["fc"], c["D"]] + ([] if c["cfg"]["fast_sensor"] else [c["fd"], c["alpha"]])
+                lineage = [model]
+                for st in c["steps"]:
+                    lineage.append(derive(pm, lineage[-1], st))
+                cols = [m(axis, *args) for m in lineage]
+            else:
+                raise ValueError(fn)
+            cols = [np.asarray(col, dtype=float) for col in cols]
+            if any(col.shape != (n,) for col in cols):
+                return [f"shape-mismatch:{[col.shape for col in cols]}"] * n
+            if fn in ("lor", "diode", "hydro"):
+                return [ef(cols[0][i]) for i in range(n)]
+            return [efl([col[i] for col in cols]) for i in range(n)]
         if k == "lor":
             return [ef(scalar(pm.passive_power_spectrum_model(np.array([c["f"]]), c["fc"], c["D"])))]
         if k == "diode":
@@ -673,6 +712,25 @@ def _nops(case):
     return len(ops(case))
 
 
+AXIS_DTYPES = ("float64", "int64", "int32", "uint32", "int16", "uint16")
+
+
+def axis_array(c):
+    """the frequency axis of an `axis` case: a numpy array of the stated dtype holding exactly the listed frequencies"""
+    if c["dtype"] not in AXIS_DTYPES:
+        raise InfraError(f"C20: unknown axis dtype {c['dtype']!r}")
+    vals = [float(x) for x in c["axis"]]
+    a = np.array(vals, dtype=float).astype(getattr(np, c["dtype"]))
+    if [float(x) for x in a] != vals:
+        raise InfraError(f"C20: axis {vals!r} is not representable as {c['dtype']}")
+    return a
+
+
+def axis_int_bits(dtype):
+    """(bits available for a non-negative value, or None for a float axis)"""
+    return {"int64": 63, "int32": 31, "uint32": 32, "int16": 15, "uint16": 16}.get(dtype)
+
+
 def _water_query(lk, q):
     """one call of the public viscosity_of_water / density_of_water, the way a user writes it (each query has its
     own try: an invalid query must not end the sequence, nor poison what follows)"""
@@ -789,6 +847,22 @@ def ops(case):
         stl = (f"c20.stimsonlist {E(c['R'])} [{','.join(E(d) for d in dists)}]"
                if all(d >= 2 * c["R"] * (1 + STIMSON_MODEL_GAP) for d in dists) else "c20.outside stimson")
         return [line, line, stl] + [f"c20.goldman {E(c['R'])} {E(math.sqrt(p[0] * p[0] + p[1] * p[1]))} {eb(c['rot'])}" for p in pairs]
+    if k == "axis":
+        # the model is asked one frequency at a time (a real number: it has no dtype)
+        fn = c["fn"]
+        if fn == "lor":
+            return [f"c20.lor {E(f)} {E(c['fc'])} {E(c['D'])}" for f in c["axis"]]
+        if fn == "diode":
+            return [f"c20.diode {E(f)} {E(c['fd'])} {E(c['alpha'])}" for f in c["axis"]]
+        if fn == "drag":
+            return [f"c20.drag {E(f)} {E(c['gamma0'])} {E(c['rho'])} {E(c['R'])} {eo(c['l'])}" for f in c["axis"]]
+        if fn == "hydro":
+            tail = f"{E(c['gamma0'])} {E(c['R'])} {E(c['rho_s'])} {E(c['rho_b'])} {eo(c['l'])}"
+            return [f"c20.hydro {E(f)} {E(c['fc'])} {E(c['D'])} {tail}" for f in c["axis"]]
+        if fn == "model":
+            return [f"c20.passivechain {cfg_tokens(c['cfg'])} {E(f)} {E(c['fc'])} {E(c['D'])} {E(c['fd'])} {E(c['alpha'])} {step_tokens(c['steps'])}".rstrip()
+                    for f in c["axis"]]
+        raise ValueError(fn)
     if k == "chain":
         a = c
         tail = f"{cfg_tokens(c['cfg'])} {E(a['f'])} {E(a['fc'])} {E(a['D'])} {E(a['fd'])} {E(a['alpha'])}"
@@ -841,7 +915,7 @@ def agree(case, i, ia, ma):
             return False
         if case["op"] == "couplevec" and ops(case)[i].startswith("c20.stimsonlist"):
             return all(close(x, y, STIMSON_REL, 1e-300) for x, y in zip(a, m))
-        if case["op"] == "drag":
+        if case["op"] == "drag" or (case["op"] == "axis" and case["fn"] == "drag"):
             mod = math.hypot(a[0], a[1])
             return all(abs(x - y) <= REL * mod for x, y in zip(a, m))
         return all(close(x, y, REL, 1e-300) for x, y in zip(a, m) if x is not None)
@@ -1122,7 +1196,7 @@ def oracle(case, ia):
         return None
     if k == "waterseq":
         return _oracle_waterseq(c, vals, ia)
-    if k in ("passive", "passiveblur", "passivealias", "chain", "setdrag", "fixeddiode"):
+    if k in ("passive", "passiveblur", "passivealias", "chain", "setdrag", "fixeddiode") or (k == "axis" and c["fn"] == "model"):
         want = o_passive_error(c["cfg"])
         if want is None and k == "fixeddiode":
             want = o_fixed_diode_error(c["fix"])
@@ -1381,6 +1455,8 @@ def oracle(case, ia):
         return _oracle_fixeddiode(c, vals[0])
     if k == "couplevec":
         return _oracle_couplevec(c, vals)
+    if k == "axis":
+        return _oracle_axis(c, vals)
     if k == "setdrag":
         full, eta, gamma0 = o_passive_psd(c)
         carried, _, _ = o_passive_psd(c, gamma0=c["gamma"])
@@ -1532,6 +1608,61 @@ def _oracle_fixeddiode(c, got):
     return None
 
 
+def _oracle_axis(c, vals):
+    """a frequency axis evaluated in one call: EVERY entry is the published equation at that entry's frequency (and
+    positive), whatever container dtype the frequencies travel in and whatever else is on the axis"""
+    fn, axis = c["fn"], c["axis"]
+    if len(vals) != len(axis):
+        return f"axis-shape: {len(vals)} values for {len(axis)} frequencies"
+    for i, (f, v) in enumerate(zip(axis, vals)):
+        what = f"entry {i} (f = {f!r}) of the {c['dtype']} axis {axis!r}"
+        if fn == "lor":
+            e = o_lorentz(f, c["fc"], c["D"])
+            if not v > 0:
+                return f"lorentzian-positive: {what}: {v!r}"
+            if not _rel(v, e, 1e-9):
+                return f"lorentzian-equation: {what}: got {v!r}, D/(pi^2 (f^2+fc^2)) = {e!r}"
+        elif fn == "diode":
+            a = c["alpha"]
+            e = o_diode(f, c["fd"], a)
+            if not _rel(v, e, 1e-9):
+                return f"diode-equation: {what}: got {v!r}, expected {e!r}"
+            if not (a * a * (1 - ULPS) <= v <= 1.0 + ULPS):
+                return f"diode-bounds: {what}: alpha^2 < g <= 1 violated: g={v!r} alpha={a!r}"
+        elif fn == "drag":
+            g = o_drag(f, c["gamma0"], c["rho"], c["R"], c["l"])
+            if abs(complex(v[0], v[1]) - g) > 1e-9 * abs(g):
+                return f"complex-drag-equation (D4/D6): {what}: got {complex(v[0], v[1])!r}, expected {g!r}"
+            if not v[0] > 0:
+                return f"complex-drag: {what}: real part (dissipation) not positive: {v[0]!r}"
+        elif fn == "hydro":
+            e = o_hydro(f, c["fc"], c["D"], c["gamma0"], c["R"], c["rho_s"], c["rho_b"], c["l"])
+            if not v > 0:
+                return f"hydro-positive: {what}: {v!r}"
+            if not _rel(v, e, 1e-8):
+                return f"hydro-spectrum-equation (D2): {what}: got {v!r}, expected {e!r}"
+        else:
+            full, _, _ = o_passive_psd(dict(c, f=f))
+            steps = c["steps"]
+            if len(v) != len(steps) + 1:
+                return f"axis-shape: {what}: {len(v)} values for {len(steps) + 1} objects"
+            cur = env = full
+            exp, envs = [full(f)], [full(f)]
+            for st in steps:
+                cur = o_wrap(st, cur)
+                env = o_wrap(st, env) if st[0] == "A" else env
+                exp.append(cur(f))
+                envs.append(env(f))
+            for j, (g, e, sc) in enumerate(zip(v, exp, envs)):
+                shape = "->".join(["model"] + [st[0] for st in steps[:j]])
+                if not g >= 0 or (not g > 0 and not any(st[0] == "B" for st in steps[:j])):
+                    return f"passive-model-positive: {what}: {shape} = {g!r}"
+                if not close(g, e, 1e-8, 1e-14 * abs(sc)):
+                    return (f"passive-model-spectrum: {what}: {shape} = {g!r}; published equations (physical spectrum x diode filter, "
+                            f"P_blur = P sinc^2(fT), P_alias = sum of shifts, composed in this order) = {e!r}")
+    return None
+
+
 def _oracle_couplevec(c, vals):
     """coupling_correction_2d with array arguments: every entry is the factor of ITS bead pair —
     c_aligned cos^2 + c_perpendicular sin^2 with the one-dimensional factors at that pair's own distance —
@@ -1614,6 +1745,8 @@ def nontrivial(case, ia):
     k = case["op"]
     if k == "chain":
         return case["f"] > 0 and len(case["steps"]) >= 1
+    if k == "axis":
+        return sum(1 for f in case["axis"] if f > 0) >= 2
     if k == "stimson2":
         return case["R1"] != case["R2"] and max(case["R1"], case["R2"]) / case["d"] >= 1e-3
     if k == "setdrag":
@@ -1636,10 +1769,37 @@ def tags(case, r):
     if case["op"] == "contact":
         # F14: the Stimson-Jeffery series is evaluated in bispherical coordinates that degenerate at contact
         t["stimson_gap_below_1e-8_radius"] = (case["d"] - 2 * case["R"]) / case["R"] < 1e-8
+    if case["op"] == "axis":
+        # F-C20-1: the Lorentzian squares the frequency in the dtype of the axis
+        bits = axis_int_bits(case["dtype"])
+        cfg = case.get("cfg")
+        t["axis_spectrum"] = ("lorentzian" if case["fn"] == "lor" or (case["fn"] == "model" and not cfg["hydrodynamically_correct"]) else
+                              "hydrodynamic" if case["fn"] in ("hydro", "model") else case["fn"])
+        t["frequency_squared_leaves_integer_axis_dtype"] = bits is not None and max(case["axis"]) ** 2 >= 2.0 ** bits
     return t
 
 
+def _in_generated_domain(c):
+    """rounding a number must not carry a case out of the domain the generators keep to (ASSUMPTIONS): the Brenner factor is
+    singular at h = R (the oracle's exact denominator is 0 there), beads do not overlap"""
+    k = c["op"]
+    if k == "wall":
+        lo = c["R"] if c.get("no_brenner") else c["R"] * (1 + 1e-3)
+        return c["h"] >= lo and c["h2"] >= lo
+    if k == "couple":
+        return min(c["d"], c["d2"]) >= 2 * c["R"] * (1 + 1e-6)
+    if k == "stimson2":
+        return c["d"] >= (c["R1"] + c["R2"]) * (1 + 1e-6)
+    return True
+
+
 def shrink(case):
+    for c in _shrink_raw(case):
+        if c.get("expect") is not None or _in_generated_domain(c):
+            yield c
+
+
+def _shrink_raw(case):
     """move numbers toward round values (keeps the case kind); nothing structural to drop"""
     for key, v in list(case.items()):
         if isinstance(v, float) and v != 0 and key not in ("h2", "d2", "T2", "m2"):
@@ -1656,8 +1816,8 @@ def shrink(case):
                 if key == "m" and "m2" in c:
                     c["m2"] = r + (case["m2"] - case["m"])
                 yield c
-    for key in ("steps", "queries", "calls", "pairs"):  # shorten the sequence
-        if key in case and len(case[key]) > (0 if key == "steps" and case["op"] in ("setdrag", "fixeddiode") else 1):
+    for key in ("steps", "queries", "calls", "pairs", "axis"):  # shorten the sequence
+        if key in case and len(case[key]) > (0 if key == "steps" and case["op"] in ("setdrag", "fixeddiode", "axis") else 1):
             for j in range(len(case[key])):
                 c = dict(case)
                 c[key] = case[key][:j] + case[key][j + 1:]
@@ -1906,6 +2066,128 @@ def water_sequence(stream, queries, **kw):
 
 
 CHAIN_SHAPES = ["B", "A", "BA", "AB", "BB", "AA", "BAB", "ABA", "BBA", "AAB"]
+
+
+def axis_case(stream, fn, dtype, axis, **kw):
+    """`fn` (lor | diode | drag | hydro | model) called ONCE with the frequencies `axis` held in a numpy array of `dtype`"""
+    c = {"stream": stream, "op": "axis", "fn": fn, "dtype": dtype, "axis": [float(x) for x in axis]}
+    c.update(kw)
+    return c
+
+
+def axis_top(dtype):
+    """the largest frequency of the property's range (100 kHz) an axis of this dtype can hold"""
+    return {"int16": 32767, "uint16": 65535}.get(dtype, 100000)
+
+
+def axis_square_edge(dtype):
+    """the largest frequency whose square still fits the axis' own integer dtype (beyond the range for int64; the 32-bit
+    edges serve as plain values for float64 / int64 axes)"""
+    bits = axis_int_bits(dtype)
+    return math.isqrt(2 ** bits - 1) if bits is not None and bits < 40 else {"float64": 46340, "int64": 65535}[dtype]
+
+
+def fit_axis(dtype, values):
+    """the frequencies as this dtype holds them: integers 1..top for the integer dtypes, no frequency twice"""
+    out = []
+    for v in values:
+        v = float(v) if dtype == "float64" else float(min(max(int(round(v)), 1), axis_top(dtype)))
+        if v not in out:
+            out.append(v)
+    return out
+
+
+def axis_fn_params(fn, R=2.2e-6, lr=None, fc=2500.0, D=0.37, eta=0.89e-3, rho_s=997.0, rho_b=1060.0):
+    l = None if lr is None else lr * R
+    if fn == "lor":
+        return {"fc": fc, "D": D}
+    if fn == "diode":
+        return {"fd": fc * 4.1, "alpha": 0.4}
+    if fn == "drag":
+        return {"gamma0": gamma0_of(eta, R), "rho": rho_s, "R": R, "l": l}
+    return {"fc": fc, "D": D, "gamma0": gamma0_of(eta, R), "R": R, "rho_s": rho_s, "rho_b": rho_b, "l": l}
+
+
+def axis_grid(tier):
+    """every spectral function x every container dtype x (an evenly spaced axis up to the top of the range; an axis around
+    the frequency whose square leaves the dtype; thorough: a log-spaced axis, one frequency alone)"""
+    q = tier == "quick"
+    models = [
+        (base_cfg(bead_diameter=1.07, temperature=24.0, fast_sensor=True), [[], [["B", 1 / 250000.0]]]),
+        (base_cfg(bead_diameter=1.07, temperature=24.0, distance_to_surface=0.7, viscosity=1.2e-3), [[], [["A", 78125.0, 3]]]),
+        (base_cfg(bead_diameter=4.4, temperature=24.0, hydrodynamically_correct=True, fast_sensor=True), [[], [["B", 1 / 250000.0], ["A", 250000.0, 3]]]),
+        (base_cfg(bead_diameter=2.0, temperature=24.0, hydrodynamically_correct=True, distance_to_surface=1.6, rho_sample=1010.0), [[["B", 2e-6]], [["A", 250000.0, 2], ["B", 1 / 250000.0]]]),
+        (base_cfg(bead_diameter=1.07, viscosity=1.2e-3, distance_to_surface=0.7, axial=True), [[], [["B", 1 / 250000.0], ["A", 250000.0, 3]]]),
+    ]
+    for dtype in AXIS_DTYPES:
+        top, edge = axis_top(dtype), axis_square_edge(dtype)
+        axes = [[top * k // 10 for k in range(1, 11)], [edge // 50, edge - 1, edge, edge + 1, 2 * edge, top]]
+        if not q:
+            axes += [logspace(1.0, top, 12), [top], [edge + 1], [0.1, 0.5, 2.5, 46341.5, 99999.9] if dtype == "float64" else [1, 2, 3, top - 1, top]]
+        for ax in axes:
+            ax = fit_axis(dtype, ax)
+            yield axis_case("grid", "lor", dtype, ax, **axis_fn_params("lor", fc=3000.0))
+            yield axis_case("grid", "diode", dtype, ax, **axis_fn_params("diode"))
+            for lr in (None, 1.5):
+                yield axis_case("grid", "drag", dtype, ax, **axis_fn_params("drag", lr=lr))
+                for R in ((0.5e-6, 2.2e-6) if q else (0.1e-6, 0.5e-6, 1e-6, 2.2e-6, 4e-6)):
+                    yield axis_case("grid", "hydro", dtype, ax, **axis_fn_params("hydro", R=R, lr=lr))
+            for cfg, step_sets in models:
+                for steps in step_sets:
+                    yield axis_case("grid", "model", dtype, ax, cfg=cfg, steps=steps, fc=1800.0, D=0.37, fd=14000.0, alpha=0.3)
+
+
+def random_axis_cases(tier, rng):
+    """its own random stream (forked after all the others: adding it left every earlier case of a seed as it was)"""
+    q = tier == "quick"
+    r = rng.fork("c20-axis")
+    for i in range(420 if q else 9000):
+        s = r.fork(i)
+        dtype = s.choice(["float64", "int64", "int32", "int32", "uint32", "int16", "uint16"])
+        top, edge = axis_top(dtype), axis_square_edge(dtype)
+        n = s.randint(1, 12)
+        shape = s.choice(["arange", "arange", "log", "random", "edge"])
+        if shape == "arange":  # k * df, as a spectrum's axis is; often ending at the top of the range
+            step = s.choice([1, 10, 100, 1000, s.randint(1, max(1, top // n))])
+            start = s.choice([step, top - step * (n - 1), top - step * (n - 1), s.randint(1, max(1, top - step * (n - 1)))])
+            ax = [start + step * j for j in range(n)]
+        elif shape == "log":
+            ax = logspace(s.choice([0.1, 1.0, s.loguniform(0.1, 1e3)]), s.choice([top, top, s.loguniform(1e3, top)]), max(n, 2))
+        elif shape == "random":
+            ax = [s.choice([s.loguniform(0.1, top), s.uniform(0.1, top)]) for _ in range(n)]
+        else:  # around the frequency whose square no longer fits the axis' dtype, and the top of the range
+            pool = [edge - 1, edge, edge + 1, edge + 2, 2 * edge, top, top - 1, s.uniform(edge, max(edge + 1, top)), s.loguniform(1.0, edge)]
+            ax = s.sample(pool, min(n, len(pool)))
+        if dtype == "float64" and s.chance(0.4):
+            ax = [float(round(v)) if v >= 1 else v for v in ax]  # integer-valued frequencies in a float axis
+        ax = fit_axis(dtype, ax)
+        fc, D = s.loguniform(5.0, 3e4), s.loguniform(1e-4, 1e2)
+        R = s.choice([s.loguniform(0.1e-6, 4e-6)] * 6 + [0.1e-6, 4e-6])
+        eta = s.loguniform(3.1e-4, 1e-2)
+        rho_s, rho_b = s.uniform(700.0, 1400.0), s.choice([1060.0, s.uniform(100.0, 5000.0)])
+        lr = s.choice([None, None, 1.5, s.loguniform(1.5, 1e3), s.loguniform(1.5, 3.0)])
+        fn = s.choice(["lor", "diode", "drag", "hydro", "hydro", "model", "model", "model"])
+        base = {"subseed": i}
+        if fn == "diode":
+            yield axis_case("random", fn, dtype, ax, fd=s.loguniform(1.0, 4e4), alpha=s.choice([0.0, 1.0, s.random(), s.random()]), **base)
+        elif fn != "model":
+            yield axis_case("random", fn, dtype, ax, **axis_fn_params(fn, R=R, lr=lr, fc=fc, D=D, eta=eta, rho_s=rho_s, rho_b=rho_b), **base)
+        else:
+            hyd = s.chance(0.6)
+            axial = (not hyd) and s.chance(0.3)
+            d = s.choice([s.loguniform(0.2, 8.0)] * 5 + [0.2, 8.0])
+            lo = 1.5 if hyd else (1.001 if axial else 1.0)
+            lrr = s.choice([None, lo, s.loguniform(lo, 3.0), s.loguniform(lo, 1e3)])
+            cfg = base_cfg(bead_diameter=d, viscosity=s.choice([None, eta]), temperature=s.choice([s.uniform(5.001, 89.999), 20.0]),
+                           hydrodynamically_correct=hyd, distance_to_surface=None if lrr is None else lrr * d / 2,
+                           rho_sample=s.choice([None, rho_s]), rho_bead=rho_b, fast_sensor=s.chance(0.4), axial=axial)
+            # a sampled spectrum lives below Nyquist: exposure times up to 0.9 / (the highest frequency of the axis), so that no
+            # entry sits on a zero of the motion-blur factor (there the value is rounding noise of sin(pi k))
+            fs_ = s.choice([2.0, 2.5, s.uniform(2.0, 20.0)]) * max(ax)
+            T = s.choice([1 / fs_, 1 / fs_, s.uniform(0.05, 0.9) / max(ax), s.loguniform(1e-3, 0.9) / max(ax)])
+            steps = s.choice([[], [], [["B", T]], [["A", s.choice([fs_, 78125.0]), s.choice([0, 1, 3, 10])]], [["B", T], ["A", fs_, s.randint(0, 10)]],
+                              [["A", fs_, s.randint(0, 10)], ["B", T]], [["B", T], ["B", 0.37 * T]]])
+            yield axis_case("random", fn, dtype, ax, cfg=cfg, steps=steps, fc=fc, D=D, fd=s.loguniform(1e3, 4e4), alpha=s.random(), **base)
 
 
 def wall_case(stream, R, ratio, step, **kw):
@@ -2271,7 +2553,9 @@ def _all_cases(tier, rng):
         yield {"stream": "corpus", "op": "contact", "R": 0.5, "d": 1.0}
     yield from malformed(rng, 60 if tier == "quick" else 1500)
     yield from grid(tier)
+    yield from axis_grid(tier)
     yield from random_cases(tier, rng)
+    yield from random_axis_cases(tier, rng)
 
 
 def cases(tier, rng):
@@ -2293,6 +2577,7 @@ def extra_coverage(results):
     chains, setdrag, unequal = {}, {}, {}
     fixedd = {"cases": 0, "calls": 0, "alpha_fixed_at_0": 0, "alpha_fixed_at_1": 0, "alpha_fixed_inside": 0, "f_diode_fixed": 0, "both_fixed": 0, "behind_wrappers": 0}
     cvec = {"cases": 0, "pairs": 0, "max_pairs": 0, "same_geometry_repeated": 0, "array": 0, "list": 0, "scalar": 0}
+    axes = {"cases": 0, "frequencies": 0, "by_dtype": {}, "by_function": {}, "square_leaves_integer_dtype": 0, "reaching_100kHz": 0, "behind_wrappers": 0}
     wseq = {"sequences": 0, "queries": 0, "array_queries": 0, "invalid_queries": 0, "same_T_c_new_p": 0, "same_c_p_new_T": 0, "same_T_p_new_c": 0}
     for r in results:
         c = r["case"]
@@ -2318,6 +2603,15 @@ def extra_coverage(results):
             cvec["max_pairs"] = max(cvec["max_pairs"], len(c["pairs"]))
             cvec["same_geometry_repeated"] += len(c["pairs"]) > 1 and all(p == c["pairs"][0] for p in c["pairs"])
             cvec[c["form"]] += 1
+        if c["op"] == "axis":
+            axes["cases"] += 1
+            axes["frequencies"] += len(c["axis"])
+            axes["by_dtype"][c["dtype"]] = axes["by_dtype"].get(c["dtype"], 0) + 1
+            axes["by_function"][c["fn"]] = axes["by_function"].get(c["fn"], 0) + 1
+            bits = axis_int_bits(c["dtype"])
+            axes["square_leaves_integer_dtype"] += bits is not None and max(c["axis"]) ** 2 >= 2.0 ** bits
+            axes["reaching_100kHz"] += max(c["axis"]) >= 1e5
+            axes["behind_wrappers"] += bool(c.get("steps"))
         if c["op"] == "stimson2":
             ratio = max(c["R1"], c["R2"]) / min(c["R1"], c["R2"])
             key = "equal" if ratio == 1 else "ratio<2" if ratio < 2 else "ratio 2-10" if ratio < 10 else "ratio>=10"
@@ -2383,6 +2677,6 @@ def extra_coverage(results):
                 stim["oracle_only(contact corpus)"] += 1
     return {"stimson_series": stim, "passive_init_branches": init, "salt_model_points": salt, "case_kinds": kinds, "error_kinds": errs, "explore_only_observables": outside, "wall_ratio_histogram": near_wall,
             "hydro_branches": hydro_branch, "frequency_decades": fdec, "wrapper_chain_shapes": chains, "set_drag_models": setdrag, "stimson_radius_ratios": unequal,
-            "fixed_diode_filter": fixedd, "coupling_2d_arrays": cvec, "water_query_sequences": wseq, "tolerance": "rel 1e-9 model vs implementation (complex drag: 1e-9 of the modulus)",
+            "fixed_diode_filter": fixedd, "frequency_axes": axes, "coupling_2d_arrays": cvec, "water_query_sequences": wseq, "tolerance": "rel 1e-9 model vs implementation (complex drag: 1e-9 of the modulus)",
             "exhaustive": False,
             "exhaustive_note": "continuous domains: fixed dense grids + seeded random points; nothing is enumerated exhaustively"}
